@@ -49,6 +49,7 @@ def monitor(case, out, numbering):
     flights = {}
     skipseq = {}
     seeds = {}
+    negotiated = {}       # slot -> size of the last acknowledged N request of the session (from the traffic, not from the server's state)
 
     def finalize(slot, k):
         fl = flights.pop(slot, None)
@@ -94,10 +95,12 @@ def monitor(case, out, numbering):
             if seeds.get(slot) != sd:
                 seeds[slot] = sd
                 flights.pop(slot, None)
+                negotiated.pop(slot, None)
         # ---- reject ----
         for slot, u in r.users.items():
             if u.fragsize() < 2:
                 return ('fragsize-below-2', 'session %d shows fragment size %d' % (slot, u.fragsize()), k), st, notes
+        pending_neg = None
         if q is not None and q.kind == 'N' and q.fs is not None:
             ans = [srvmon.dec_bytes(s.dec) for s in r.sends if s.rv is not None]
             acked = any(b is not None and ln == 2 and b == bytes([q.fs >> 8, q.fs & 255]) for ln, b, f in ans)
@@ -111,6 +114,7 @@ def monitor(case, out, numbering):
                     st['badfrag'] += 1
             elif acked and q.uid in r.users:
                 st['n_acc'] += 1
+                pending_neg = (q.uid, q.fs)
                 if r.users[q.uid].fragsize() != q.fs:
                     return ('N-not-applied', 'N %d acknowledged but the session shows %d' % (q.fs, r.users[q.uid].fragsize()), k), st, notes
         # ---- bound, numbering ----
@@ -138,6 +142,13 @@ def monitor(case, out, numbering):
             if ln - 2 > F:
                 return ('bound', 'answer to %s query id %d of session %d carries %d bytes of tunnel data after the 2-byte header; '
                         'the session\'s fragment size is %d' % (qi.kind, qid, slot, ln - 2, F), k), st, notes
+            Fn = negotiated.get(slot)
+            if Fn is not None and ln - 2 > Fn:
+                return ('bound-negotiated', 'answer to %s query id %d of session %d carries %d bytes of tunnel data after the 2-byte header; the last '
+                        'fragment size the session set (and the server acknowledged) is %d, and no N request has been made since' % (
+                            qi.kind, qid, slot, ln - 2, Fn), k), st, notes
+            if Fn is not None:
+                st['checked_against_negotiated'] = st.get('checked_against_negotiated', 0) + 1
             if F > 0:
                 st['max_fill'] = max(st['max_fill'], (ln - 2) / min(F, 4094))
                 if ln - 2 == min(F, 4094):
@@ -208,6 +219,8 @@ def monitor(case, out, numbering):
                         st['invisible'] = st.get('invisible', 0) + 1
                         flights.pop(slot, None)
                         skipseq[slot] = po[3] if po[0] > 0 else o[3]
+        if pending_neg is not None:
+            negotiated[pending_neg[0]] = pending_neg[1]
         prev = r.users
     if numbering:
         for slot in list(flights):
